@@ -8,6 +8,7 @@
 package c18
 
 import (
+	"crypto"
 	"encoding/json"
 	"errors"
 	"fmt"
@@ -15,6 +16,7 @@ import (
 	nethttp "net/http"
 	"net/http/httptest"
 	"net/url"
+	"os"
 	"sort"
 	"strings"
 	"testing"
@@ -37,6 +39,7 @@ import (
 	"gorm.io/gorm"
 
 	"verif/ev"
+	"verif/netlab"
 )
 
 type opsCase struct {
@@ -140,7 +143,6 @@ type opsStats struct{ histories, ops, opErrors, resolutions int64 }
 
 // runOpsCase replays one history on a fresh subject and judges every resolution in the state it ends in.
 func runOpsCase(t *testing.T, r *ev.Run, n *opsNode, c opsCase, st *opsStats) {
-	l := theLab()
 	ctx := audit.TestContext()
 	docs, subject, err := n.mgr.Create(ctx, didsubject.DefaultCreationOptions())
 	if err != nil {
@@ -291,6 +293,7 @@ func runOpsCase(t *testing.T, r *ev.Run, n *opsNode, c opsCase, st *opsStats) {
 			}
 			return m.wroteBy[version]
 		}
+		reactivatedAt := -1
 		judge := func(entry string, cell mdCell, resolved bool, gotID string, err error, hits, dials int, what string) {
 			st.resolutions++
 			version, deactivated, judged := current(cell)
@@ -317,14 +320,29 @@ func runOpsCase(t *testing.T, r *ev.Run, n *opsNode, c opsCase, st *opsStats) {
 				r.Violation("C18|ops|id-differs|"+m.id.Method+"|"+entryClass(entry), desc+fmt.Sprintf(" — the answer carries id %q", gotID), c)
 			}
 			if judged && deactivated && !cell.allow && resolved {
-				r.Violation("C18|ops|deactivated-resolves|"+m.id.Method+"|"+entryClass(entry)+"|version-written-by-"+wroteBy(version),
-					desc+fmt.Sprintf(" — the DID was deactivated by version %d; the version current for this request is %d, written by %q", m.deactAt, version, wroteBy(version)), c)
+				// one signature per cause: the operation that wrote the first version from which the own-database resolver answers again;
+				// a deviation of one entry point only is named by the entry point
+				sig := "C18|ops|deactivated-resolves|" + m.id.Method + "|" + entryClass(entry) + "|version-written-by-" + wroteBy(version)
+				if reactivatedAt >= 0 && version >= reactivatedAt {
+					sig = "C18|ops|deactivated-resolves|" + m.id.Method + "|reactivated-by-" + wroteBy(reactivatedAt)
+				}
+				r.Violation(sig, desc+fmt.Sprintf(" — the DID was deactivated by version %d; the version current for this request is %d, written by %q", m.deactAt, version, wroteBy(version)), c)
 			}
 			if judged && deactivated && cell.allow && !resolved {
 				r.Observation("ops: a deactivated managed DID does not resolve although the caller allows it: "+m.id.Method+" "+entryClass(entry), nil)
 			}
 			if judged && !deactivated && version >= 0 && !resolved && cell.hash < 0 && !strings.HasPrefix(entry, "key") {
 				r.Observation("ops: an existing, active version of a managed DID does not resolve: "+m.id.Method+" "+entryClass(entry)+" "+cell.name, nil)
+			}
+		}
+		// the first version at or after the deactivation as of which the own-database resolver answers without AllowDeactivated
+		if m.deactAt >= 0 && !m.ambiguous {
+			for i := m.deactAt; i < len(m.times); i++ {
+				x := time.Unix(m.times[i], 0)
+				if _, _, err := owned.Resolve(m.id, &resolver.ResolveMetadata{ResolveTime: &x}); err == nil {
+					reactivatedAt = i
+					break
+				}
 			}
 		}
 		sqlBacked := m.id.Method == "web" // the router answers did:web from the SQL rows; did:nuts from the network store (own version times)
@@ -336,15 +354,15 @@ func runOpsCase(t *testing.T, r *ev.Run, n *opsNode, c opsCase, st *opsStats) {
 				if entry == "router" && !sqlBacked && !(cell.name == "nil" || cell.name == "no-time" || cell.name == "far-future") {
 					continue
 				}
-				l.Take()
 				var doc *did.Document
 				var err error
-				if entry == "router" {
-					doc, _, err = router.Resolve(m.id, cell.md)
-				} else {
-					doc, _, err = owned.Resolve(m.id, cell.md)
-				}
-				hits, dials := l.Take()
+				hits, dials := netOf(func() {
+					if entry == "router" {
+						doc, _, err = router.Resolve(m.id, cell.md)
+					} else {
+						doc, _, err = owned.Resolve(m.id, cell.md)
+					}
+				})
 				gotID := ""
 				if doc != nil {
 					gotID = doc.ID.String()
@@ -355,9 +373,11 @@ func runOpsCase(t *testing.T, r *ev.Run, n *opsNode, c opsCase, st *opsStats) {
 		nilCell := cells[0]
 		// ---- (3) ResolveManaged, (4) the public did.json handler, (5) the vdr v2 resolve API: no metadata
 		{
-			l.Take()
-			doc, err := n.v.ResolveManaged(m.id)
-			hits, dials := l.Take()
+			var doc *did.Document
+			var err error
+			hits, dials := netOf(func() {
+				doc, err = n.v.ResolveManaged(m.id)
+			})
 			gotID := ""
 			if doc != nil {
 				gotID = doc.ID.String()
@@ -366,16 +386,20 @@ func runOpsCase(t *testing.T, r *ev.Run, n *opsNode, c opsCase, st *opsStats) {
 		}
 		if m.id.Method == "web" {
 			tenant := m.id.ID[strings.LastIndex(m.id.ID, ":")+1:]
-			l.Take()
-			code, body := n.get("/iam/" + tenant + "/did.json")
-			hits, dials := l.Take()
+			var code int
+			var body []byte
+			hits, dials := netOf(func() {
+				code, body = n.get("/iam/" + tenant + "/did.json")
+			})
 			gotID, ok := bodyID(body, "")
 			judge("http-did-json", nilCell, code == 200 && ok, gotID, fmt.Errorf("status %d", code), len(hits), len(dials), "GET /iam/{id}/did.json")
 		}
 		{
-			l.Take()
-			code, body := n.get("/internal/vdr/v2/did/" + url.PathEscape(m.id.String()))
-			hits, dials := l.Take()
+			var code int
+			var body []byte
+			hits, dials := netOf(func() {
+				code, body = n.get("/internal/vdr/v2/did/" + url.PathEscape(m.id.String()))
+			})
 			gotID, ok := bodyID(body, "document")
 			judge("api-resolve", nilCell, code == 200 && ok, gotID, fmt.Errorf("status %d", code), len(hits), len(dials), "GET /internal/vdr/v2/did/{did}")
 		}
@@ -400,9 +424,12 @@ func runOpsCase(t *testing.T, r *ev.Run, n *opsNode, c opsCase, st *opsStats) {
 				if cell.md != nil {
 					at = cell.md.ResolveTime
 				}
-				l.Take()
-				kid, key, err := keyRes.ResolveKey(m.id, at, rel.rel)
-				hits, dials := l.Take()
+				var kid string
+				var key crypto.PublicKey
+				var err error
+				hits, dials := netOf(func() {
+					kid, key, err = keyRes.ResolveKey(m.id, at, rel.rel)
+				})
 				gotID := ""
 				if err == nil {
 					gotID = strings.SplitN(kid, "#", 2)[0]
@@ -415,14 +442,33 @@ func runOpsCase(t *testing.T, r *ev.Run, n *opsNode, c opsCase, st *opsStats) {
 				if !(cell.name == "nil" || cell.name == "no-time" || cell.name == "far-future") {
 					continue
 				}
-				l.Take()
-				key, err := keyRes.ResolveKeyByID(kid, cell.md, resolver.AssertionMethod)
-				hits, dials := l.Take()
+				var key crypto.PublicKey
+				var err error
+				hits, dials := netOf(func() {
+					key, err = keyRes.ResolveKeyByID(kid, cell.md, resolver.AssertionMethod)
+				})
 				judge("key-by-id", cell, err == nil && key != nil, strings.SplitN(kid, "#", 2)[0], err, len(hits), len(dials), "key resolution by id")
 			}
 		}
 	}
 	r.Sample(map[string]any{"case": c, "dids": len(models)})
+}
+
+// netOf runs one (read-only, repeatable) resolution and returns the outbound requests and dials the lab saw meanwhile. The node has
+// background routines of its own; an attempt that does not repeat when the same resolution is run again is not the resolution's.
+func netOf(fn func()) ([]netlab.Hit, []netlab.Dial) {
+	l := theLab()
+	l.Take()
+	fn()
+	hits, dials := l.Take()
+	if len(hits)+len(dials) > 0 {
+		fn()
+		h2, d2 := l.Take()
+		if len(h2)+len(d2) < len(hits)+len(dials) {
+			return h2, d2
+		}
+	}
+	return hits, dials
 }
 
 func entryClass(entry string) string {
@@ -482,6 +528,9 @@ func TestVerifC18Ops(t *testing.T) {
 	r := ev.Start(t, "C18")
 	defer r.Finish()
 	logrus.SetOutput(io.Discard)
+	if os.Getenv("VERIF_C18_DEBUG") != "" {
+		logrus.SetOutput(os.Stderr)
+	}
 	audit.VerifSilence()
 	theLab()
 	r.Rule("(ops) assembled node with DID methods {web} and {web,nuts}; every sequence of 0..depth subject operations over {Deactivate, CreateService, UpdateService, DeleteService, " +
@@ -495,6 +544,9 @@ func TestVerifC18Ops(t *testing.T) {
 	depth, alphabet := 3, opsAlphabet[:5]
 	if r.Thorough() {
 		depth, alphabet = 4, opsAlphabet
+	}
+	if d := os.Getenv("VERIF_C18_OPS_DEPTH"); d != "" { // debugging only
+		fmt.Sscan(d, &depth)
 	}
 	var c opsCase
 	if r.ReplayCase(&c) {
@@ -524,7 +576,7 @@ func TestVerifC18Ops(t *testing.T) {
 		if len(mine) == 0 {
 			continue
 		}
-		t.Run("node-"+methods, func(t *testing.T) {
+		t.Run("node-"+strings.ReplaceAll(methods, ",", "-"), func(t *testing.T) {
 			n := startOpsNode(t, methods)
 			for _, c := range mine {
 				if r.Expired() {
